@@ -280,7 +280,7 @@ class Ctx:
     def corr_broken(self, name, case, impl, model):
         if len([b for b in self.broken if b.startswith('correspondence')]) < 5:
             self.broken.append('correspondence %s: impl=%s model=%s case=%s' % (name, json.dumps(impl, default=str)[:300],
-                                                                                 json.dumps(model, default=str)[:300], json.dumps(case, default=str)[:400]))
+                                                                                 json.dumps(model, default=str)[:300], json.dumps(case, default=str, ensure_ascii=False)[:2500]))
 
     def sample(self, x):
         if len(self.samples) < 6:
